@@ -5,6 +5,7 @@ import (
 	"fmt"
 	"os"
 	"sort"
+	"strings"
 	"time"
 
 	"github.com/Oneledger/protocol/data/chain"
@@ -105,7 +106,8 @@ func c01Exec(j c01Job) c01Res {
 		return c01Res{Err: err.Error()}
 	}
 	defer fol.Close()
-	fol.Seam = &verifseam.Ctx{Plan: j.Plan, KeepLog: true, TimeOffset: 400 * 24 * time.Hour, Node: 7}
+	fol.Seam = &verifseam.Ctx{Plan: j.Plan, KeepLog: true, TimeOffset: 400 * 24 * time.Hour, Node: 7, KeepWrites: true}
+	lead.Seam.KeepWrites = true
 	if j.Variant == "index-lag" {
 		fol.IndexLag = 1
 	}
@@ -140,6 +142,15 @@ func c01Exec(j c01Job) c01Res {
 			out.Diff, out.Field, out.Block = d, diffField(d), i
 			break
 		}
+		// same results - but did both replicas insert new keys into / delete keys from the state tree in
+		// the same ORDER? The tree's shape, and with it the root hash, depends on that order (for some key
+		// values only: equal hashes on this history do not make a run-dependent order harmless)
+		lw, fw := shapeWrites(lead.Seam.Writes), shapeWrites(fol.Seam.Writes)
+		lead.Seam.Writes, fol.Seam.Writes = nil, nil
+		if d := firstOrderDiff(lw, fw); d != "" && j.Variant != "index-lag" {
+			out.Diff, out.Field, out.Block = fmt.Sprintf("h=%d: same app hash, but the order of insertions/deletions in the state tree differs: %s", req.Height, d), "write-order", i
+			break
+		}
 		if err := x.Finish(res); err != nil {
 			return c01Res{Err: "chain halted: " + err.Error()}
 		}
@@ -171,6 +182,30 @@ func c01Exec(j c01Job) c01Res {
 	return out
 }
 
+// shapeWrites keeps the writes that change the shape of the tree: insertions of new keys and deletions.
+func shapeWrites(w []string) []string {
+	var out []string
+	for _, x := range w {
+		if strings.HasPrefix(x, "I:") || strings.HasPrefix(x, "D:") {
+			out = append(out, x)
+		}
+	}
+	return out
+}
+
+// firstOrderDiff describes the first position at which two write sequences differ ("" = identical).
+func firstOrderDiff(a, b []string) string {
+	for i := 0; i < len(a) && i < len(b); i++ {
+		if a[i] != b[i] {
+			return fmt.Sprintf("position %d of %d: first replica %q, second replica %q", i+1, len(a), a[i], b[i])
+		}
+	}
+	if len(a) != len(b) {
+		return fmt.Sprintf("%d vs %d shape-changing writes", len(a), len(b))
+	}
+	return ""
+}
+
 func c01(args []string) int {
 	if explore.IsWorker("C01") {
 		return workerMain(func(raw json.RawMessage) interface{} {
@@ -197,7 +232,9 @@ func c01(args []string) int {
 		harness.SilenceStdout()
 		defer harness.RemoveScratch()
 		r := c01Exec(doc.Case)
-		r.Points = nil
+		if os.Getenv("VERIF_C01_POINTS") == "" {
+			r.Points = nil
+		}
 		b, _ := json.MarshalIndent(r, "", " ")
 		harness.Outf("%s\n", b)
 		if r.Diff != "" {
